@@ -1,0 +1,147 @@
+// Copyright 2017-2021 Lei Ni (nilei81@gmail.com) and other contributors.
+//
+// Licensed under the Apache License, Version 2.0 (the "License");
+// you may not use this file except in compliance with the License.
+// You may obtain a copy of the License at
+//
+//     http://www.apache.org/licenses/LICENSE-2.0
+//
+// Unless required by applicable law or agreed to in writing, software
+// distributed under the License is distributed on an "AS IS" BASIS,
+// WITHOUT WARRANTIES OR CONDITIONS OF ANY KIND, either express or implied.
+// See the License for the specific language governing permissions and
+// limitations under the License.
+
+//go:build verif
+// +build verif
+
+package transport
+
+// This file is only compiled with the `verif` build tag. It lets a
+// deterministic simulation harness kept outside of this repository take over
+// the asynchronous parts of the transport (per target send queues and the
+// goroutines running snapshot jobs). Splitting a snapshot into chunks, loading
+// chunk data, the job state machine, the receiving side and the chunk
+// tracker are the shipped code.
+
+import (
+	"sync/atomic"
+
+	"github.com/lni/dragonboat/v4/internal/vfs"
+	"github.com/lni/dragonboat/v4/raftio"
+	pb "github.com/lni/dragonboat/v4/raftpb"
+)
+
+const verifEnabled = true
+
+// VerifHooks are installed by the simulation harness.
+var VerifHooks struct {
+	// SendBatch is given every outgoing message wrapped in the batch header
+	// processMessages would have produced.
+	SendBatch func(t *Transport, addr string, mb pb.MessageBatch) bool
+	// Async is asked to run f later as a task of its own, f is what the
+	// snapshot job goroutine would have executed.
+	Async func(t *Transport, kind string, shardID uint64, to uint64, f func())
+}
+
+func (t *Transport) verifSend(req pb.Message) (bool, bool) {
+	h := VerifHooks.SendBatch
+	if h == nil {
+		return false, false
+	}
+	if req.Type == pb.InstallSnapshot {
+		panic("snapshot message must be sent via its own channel.")
+	}
+	addr, _, err := t.resolver.Resolve(req.ShardID, req.To)
+	if err != nil {
+		return true, false
+	}
+	mb := pb.MessageBatch{
+		SourceAddress: t.sourceID,
+		BinVer:        raftio.TransportBinVersion,
+		DeploymentId:  t.nhConfig.GetDeploymentID(),
+		Requests:      []pb.Message{req},
+	}
+	return true, h(t, addr, mb)
+}
+
+func (t *Transport) verifGetStreamSink(shardID uint64, replicaID uint64) *Sink {
+	addr, _, err := t.resolver.Resolve(shardID, replicaID)
+	if err != nil {
+		return nil
+	}
+	key := raftio.GetNodeInfo(shardID, replicaID)
+	if job := t.createJob(key, addr, true, 0); job != nil {
+		shutdown := func() {
+			atomic.AddUint64(&t.jobs, ^uint64(0))
+		}
+		VerifHooks.Async(t, "stream", shardID, replicaID, func() {
+			t.processSnapshot(job, addr)
+			shutdown()
+		})
+		return &Sink{j: job}
+	}
+	return nil
+}
+
+func (t *Transport) verifDoSendSnapshot(m pb.Message) bool {
+	toReplicaID := m.To
+	shardID := m.ShardID
+	if m.Type != pb.InstallSnapshot {
+		panic("not a snapshot message")
+	}
+	chunks, err := splitSnapshotMessage(m, t.fs)
+	if err != nil {
+		plog.Errorf("failed to get snapshot chunks %+v", err)
+		return false
+	}
+	addr, _, err := t.resolver.Resolve(shardID, toReplicaID)
+	if err != nil {
+		return false
+	}
+	key := raftio.GetNodeInfo(shardID, toReplicaID)
+	job := t.createJob(key, addr, false, len(chunks))
+	if job == nil {
+		return false
+	}
+	shutdown := func() {
+		atomic.AddUint64(&t.jobs, ^uint64(0))
+		if err := m.Snapshot.Unref(); err != nil {
+			panic(err)
+		}
+	}
+	job.addSnapshot(chunks)
+	VerifHooks.Async(t, "snapshot", shardID, toReplicaID, func() {
+		t.processSnapshot(job, addr)
+		shutdown()
+	})
+	return true
+}
+
+// VerifAddress returns the identity this transport announces to its peers.
+func (t *Transport) VerifAddress() string { return t.sourceID }
+
+// VerifChunks returns the chunk tracker of the receiving side.
+func (t *Transport) VerifChunks() *Chunk { return t.chunks }
+
+// VerifHandleRequest is the receiving side entry point for message batches.
+func (t *Transport) VerifHandleRequest(mb pb.MessageBatch) { t.handleRequest(mb) }
+
+// VerifUnreachable reports a target as unreachable the way a failed
+// connection does.
+func (t *Transport) VerifUnreachable(shardID uint64, replicaID uint64) {
+	t.msgHandler.HandleUnreachable(shardID, replicaID)
+}
+
+// VerifSetSnapshotChunkSize changes the snapshot chunk size (process wide).
+func VerifSetSnapshotChunkSize(sz uint64) { snapshotChunkSize = sz }
+
+// VerifSplitSnapshotMessage exposes the sender side chunk splitting.
+func VerifSplitSnapshotMessage(m pb.Message, fs vfs.IFS) ([]pb.Chunk, error) {
+	return splitSnapshotMessage(m, fs)
+}
+
+// VerifLoadChunkData exposes the sender side chunk data loading.
+func VerifLoadChunkData(c pb.Chunk, fs vfs.IFS) ([]byte, error) {
+	return loadChunkData(c, nil, fs)
+}
